@@ -401,6 +401,17 @@ inductive TProp where
   | mk (key : Str) (optional : Bool) (readonly : Bool) (shape : TyShape) (alts : Option (List (List TProp)))
 deriving Repr, Inhabited
 
+/-- after a leaf type: further members `| "B"` / `| number` of a union of leaf types (inner text
+of a scalar such as `"BlogItem" | "AdItem"`); a `| null` that closes a parenthesis is left alone -/
+def skipLeafUnion : Nat → List Tok → List Tok
+  | 0, ts => ts
+  | fuel + 1, ts =>
+    match ts with
+    | .punct 124 :: .str _ :: rest => skipLeafUnion fuel rest
+    | .punct 124 :: .word w :: rest =>
+      if w == cs!"null" && rest.head? == some (Tok.punct 41) then ts else skipLeafUnion fuel rest
+    | ts => ts
+
 mutual
 /-- a type: returns (shape, object alternatives of the innermost type) -/
 def tsTypeP : Nat → TP (TyShape × Option (List (List TProp)))
@@ -438,8 +449,8 @@ def tsTypeP : Nat → TP (TyShape × Option (List (List TProp)))
       | none => none
       | some (props, rest1) =>
         (tsAltsP fuel rest1 [props]).map fun (alts, r) => ((.leaf, some alts), r)
-    | .word _ :: rest => some ((.leaf, none), rest)
-    | .str _ :: rest => some ((.leaf, none), rest)
+    | .word _ :: rest => some ((.leaf, none), skipLeafUnion rest.length rest)
+    | .str _ :: rest => some ((.leaf, none), skipLeafUnion rest.length rest)
     | _ => none
 /-- further alternatives `| { props }` -/
 def tsAltsP : Nat → List Tok → List (List TProp) → Option (List (List TProp) × List Tok)
